@@ -34,7 +34,17 @@ func init() {
 		if p.Sign != 1 && p.Sign != -1 {
 			s = p.Sign // the library reports GreaterOrEqual for anything else; only ±1 occur in verified proofs
 		}
-		return fmt.Sprintf("%d %d %s", s, f, showInt(b))
+		// what is reported must follow from what the verified proof establishes, sign*(A*m - K) >= 0,
+		// for every attribute value (checked on the box the generator draws K from)
+		verdict := "sound"
+		if b.IsInt64() && (p.Sign == 1 || p.Sign == -1) {
+			for m := int64(0); m <= 96; m++ {
+				if stmtHolds(int64(p.Sign), int64(p.A), p.K.Int64(), m) && !stmtHolds(int64(s), int64(f), b.Int64(), m) {
+					verdict = "unsound"
+				}
+			}
+		}
+		return fmt.Sprintf("%s %d %d %s", verdict, s, f, showInt(b))
 	}
 	executors["rp-complete"] = func(o Op) string {
 		kp := execKey(o.str("key"))
@@ -103,7 +113,7 @@ func genC12(g *Rng, tier string, emit func(Op)) {
 			for _, a := range as {
 				for k := -krange; k <= krange; k++ {
 					// ProvenStatement
-					emit(Op{"op": "rp-proven", "class": "proven", "ncs": ncs, "sign": hxi(sign), "a": hxi(a), "k": hxi(k)})
+					emit(Op{"op": "rp-proven", "class": "proven", "label": "sound", "ncs": ncs, "sign": hxi(sign), "a": hxi(a), "k": hxi(k)})
 					for _, qs := range []int64{1, -1} {
 						for _, qf := range []int64{0, 1, 2, 3, 4} {
 							for qb := -krange / 2; qb <= krange/2; qb++ {
@@ -296,6 +306,25 @@ func genC12(g *Rng, tier string, emit func(Op)) {
 			junk["sign"], junk["a"] = 1, uint64(1)
 			tg["rangeproofs"] = T{"3": []any{junk}}
 			emit(verifyDOp(kp.id, tg, ctx, nonce, false, "rp-junk-above-gap", "reject").with("fkey", "C12/rangeproof-at-unchecked-index"))
+		}
+		// a junk range proof whose structure cannot even be extracted (l_d beyond the message
+		// length), attached to an honest proof made without range statements: it must be refused,
+		// and refused again when the verifier is asked a second time about the same object
+		{
+			pp, err := cred.CreateDisclosureProof([]int{3}, nil, false, ctx, nonce)
+			if err != nil {
+				panic(err)
+			}
+			tp := proofDTree(pp)
+			junk := cloneTree(tree["rangeproofs"].(T)["1"].([]any)[0]).(T)
+			junk["k"] = I(new(big.Int).Add(m1, bi(1000))) // claims attribute 1 >= its value + 1000
+			junk["sign"], junk["a"], junk["l_d"] = 1, uint64(1), int(pk.Params.Lm)+1+g.intn(1000)
+			tp["rangeproofs"] = T{"1": []any{junk}}
+			emit(verifyDOp(kp.id, tp, ctx, nonce, false, "rp-junk-unextractable", "reject").with("fkey", "C12/structure-cache-after-error"))
+			// one extractable (honest-looking) and one unextractable proof on two indices
+			tq := cloneTree(tp).(T)
+			tq["rangeproofs"].(T)["2"] = []any{cloneTree(junk)}
+			emit(verifyDOp(kp.id, tq, ctx, nonce, false, "rp-junk-unextractable-2", "reject").with("fkey", "C12/structure-cache-after-error"))
 		}
 		// range proof removed: the remaining proof no longer matches its challenge
 		t4 := cloneTree(tree).(T)
